@@ -77,3 +77,4 @@ pub fn handle16(id: u32) -> [u8; 16] {
 pub fn unhandle16(h: &[u8; 16]) -> u32 {
     ((h[0] as u32) << 8) | h[15] as u32
 }
+pub mod dsim;
